@@ -184,7 +184,7 @@ def run(ctx: Ctx):
         glob_table(ctx, "a*.(", 6, "glob table: all patterns x subjects of length <= 6 over {a,*,.,(}")
     s = Stream(ctx, "random trees x exclusion tuples from the tree's own names (glob and regex forms)")
     rng = ctx.rng("scans")
-    n = ctx.size(1500, 30000)
+    n = ctx.size(3000, 30000)
     done = 0
     while done < n and ctx.left() > 20 and not ctx.violations:
         cases = []
